@@ -52,6 +52,16 @@ pub fn random_filter(rng: &mut StdRng) -> Value {
             }
         }
     };
+    // a filter may name the same exchange / instrument / underlying more than once: it denotes the same set
+    let subset = |rng: &mut StdRng, n: i64| -> Vec<i64> {
+        let mut s = subset(rng, n);
+        if rng.random_range(0..3) == 0 {
+            let d = s[rng.random_range(0..s.len())];
+            let at = rng.random_range(0..=s.len());
+            s.insert(at, d);
+        }
+        s
+    };
     match rng.random_range(0..4) {
         0 => no_filter(),
         1 => json!({"k": "Exchanges", "set": subset(rng, 2)}),
